@@ -7,7 +7,11 @@ package vm
 import (
 	"context"
 	"encoding/binary"
+	"errors"
 	"math/big"
+
+	coretypes "github.com/artela-network/aspect-core/types"
+	"google.golang.org/protobuf/proto"
 
 	"github.com/ethereum/go-ethereum/common"
 	"github.com/ethereum/go-ethereum/core/types"
@@ -223,3 +227,119 @@ func (k *verifKeccakState) Read(out []byte) (int, error) {
 	return copy(out, h[:]), nil
 }
 func verifNewKeccakState() crypto.KeccakState { return &verifKeccakState{} }
+
+// ---------------------------------------------------------------- cut points
+
+// verifRunHook replaces the interpreter loop inside frame harnesses (the
+// loader renames the real Run to verifRealRun on every run).
+var verifRunHook func(in *EVMInterpreter, ctx context.Context, contract *Contract, input []byte, readOnly bool) ([]byte, error)
+
+func (in *EVMInterpreter) Run(ctx context.Context, contract *Contract, input []byte, readOnly bool) (ret []byte, err error) {
+	if verifRunHook != nil {
+		return verifRunHook(in, ctx, contract, input, readOnly)
+	}
+	return in.verifRealRun(ctx, contract, input, readOnly)
+}
+
+// verifLogEntry is one observed callback (join point, interpreter run, debug tracer event).
+type verifLogEntry struct {
+	kind   string
+	from   common.Address
+	to     common.Address
+	input  []byte
+	gas    uint64
+	value  *big.Int
+	index  uint64
+	ret    []byte
+	errTxt string
+	err    error
+	block  uint64
+	ro     bool
+	depth  int
+}
+
+type verifRecorder struct {
+	log []verifLogEntry
+}
+
+func (r *verifRecorder) add(e verifLogEntry) { r.log = append(r.log, e) }
+func (r *verifRecorder) count(kind string) int {
+	n := 0
+	for _, e := range r.log {
+		if e.kind == kind {
+			n++
+		}
+	}
+	return n
+}
+
+// verifLogger implements EVMLogger and types.AspectLogger by recording.
+type verifLogger struct{ rec *verifRecorder }
+
+func (l *verifLogger) CaptureTxStart(gasLimit uint64) {}
+func (l *verifLogger) CaptureTxEnd(restGas uint64)    {}
+func (l *verifLogger) CaptureStart(env *EVM, from common.Address, to common.Address, create bool, input []byte, gas uint64, value *big.Int) {
+	l.rec.add(verifLogEntry{kind: "Start", from: from, to: to, input: input, gas: gas, value: value, ro: create})
+}
+func (l *verifLogger) CaptureEnd(output []byte, gasUsed uint64, err error) {
+	l.rec.add(verifLogEntry{kind: "End", ret: output, gas: gasUsed, err: err})
+}
+func (l *verifLogger) CaptureEnter(typ OpCode, from common.Address, to common.Address, input []byte, gas uint64, value *big.Int) {
+	l.rec.add(verifLogEntry{kind: "Enter", from: from, to: to, input: input, gas: gas, value: value, index: uint64(typ)})
+}
+func (l *verifLogger) CaptureExit(output []byte, gasUsed uint64, err error) {
+	l.rec.add(verifLogEntry{kind: "Exit", ret: output, gas: gasUsed, err: err})
+}
+func (l *verifLogger) CaptureState(pc uint64, op OpCode, gas, cost uint64, scope *ScopeContext, rData []byte, depth int, err error) {
+	l.rec.add(verifLogEntry{kind: "State", index: pc, gas: gas, block: cost, depth: depth, err: err, ret: rData, ro: op == 0})
+}
+func (l *verifLogger) CaptureFault(pc uint64, op OpCode, gas, cost uint64, scope *ScopeContext, depth int, err error) {
+	l.rec.add(verifLogEntry{kind: "Fault", index: pc, gas: gas, block: cost, depth: depth, err: err})
+}
+func (l *verifLogger) CaptureAspectEnter(joinpoint coretypes.JoinPointRunType, from, to, aspectId common.Address, input []byte, gas uint64, value *big.Int, execCtx proto.Message) {
+	l.rec.add(verifLogEntry{kind: "AspectEnter", from: from, to: to, input: input, gas: gas, value: value})
+}
+func (l *verifLogger) CaptureAspectExit(joinpoint coretypes.JoinPointRunType, result *coretypes.AspectExecutionResult) {
+	l.rec.add(verifLogEntry{kind: "AspectExit", gas: result.Gas, err: result.Err, ret: result.Ret})
+}
+
+// verifProvider is the host's Aspect binding lookup.
+type verifProvider struct {
+	bound  bool
+	failed error
+}
+
+func (p *verifProvider) GetTxBondAspects(ctx context.Context, a common.Address, pc coretypes.PointCut) ([]*coretypes.AspectCode, error) {
+	if p.failed != nil {
+		return nil, p.failed
+	}
+	if !p.bound {
+		return nil, nil
+	}
+	return []*coretypes.AspectCode{{AspectId: "0x01", Version: 1}}, nil
+}
+func (p *verifProvider) GetAccountVerifiers(ctx context.Context, a common.Address) ([]*coretypes.AspectCode, error) {
+	return nil, nil
+}
+func (p *verifProvider) GetLatestBlock() int64 { return 0 }
+
+// verifErrKind maps a small symbolic choice to an error value.
+// 0 nil, 1 ErrExecutionReverted, 2 ErrOutOfGas, 3 another EVM sentinel,
+// 4 fresh error "out of gas", 5 fresh error "execution reverted", 6 fresh error with other text.
+func verifErrKind(k uint64) error {
+	switch k {
+	case 0:
+		return nil
+	case 1:
+		return ErrExecutionReverted
+	case 2:
+		return ErrOutOfGas
+	case 3:
+		return ErrWriteProtection
+	case 4:
+		return errors.New("out of gas")
+	case 5:
+		return errors.New("execution reverted")
+	}
+	return errors.New("aspect failed")
+}
